@@ -383,7 +383,7 @@ func init() {
 		},
 	})
 	eng.Register(&eng.Scenario{
-		Name: "refcount-rootcancel", Props: []string{"C09", "C08"}, MustFinish: true, ObsNames: stdObs,
+		Name: "refcount-rootcancel", Props: []string{"C09", "C08", "C10"}, MustFinish: true, ObsNames: stdObs,
 		Doc:   "RefCount whose root context is cancelled from outside (not through SetContext) while the resolver call is running {value, slow, late, error}: with a context and a held reference the result of that call must still be delivered; optionally the resolver then calls released() for it: it is dropped and released",
 		Quick: eng.Bounds{PB: 2}, Thorough: eng.Bounds{PB: 4},
 		Body: func() {
@@ -398,8 +398,26 @@ func init() {
 			ref := e.rc.AddRef(refCb(0))
 			vsched.CtrSet(rcRefHeld+0, 1)
 			vsched.CtrAdd(rcHeld, 1)
+			// a consumer with a live context of its own: it gets the outcome of that resolver call
+			// (value or resolver error), it is not left waiting
+			T("WT", func() {
+				label("Wait")
+				v, wref, err := e.rc.Wait(bg)
+				label("")
+				if err == nil {
+					if i := v - 100; i < 1 || i > 8 || vsched.Ctr(rcRet0+i) != 1 {
+						fail("C10.bogus-value", "Wait returned %d which no resolver call returned", v)
+					}
+					wref.Release()
+				} else if err != errResolve {
+					fail("C10.wrong-error", "Wait (live caller context; the root context was cancelled by its owner) returned %v, want the resolver's outcome", err)
+				}
+			})
 			T("X", func() { cancel() })
 			vsched.Settle()
+			if n := vsched.CountParked("Wait"); n > 0 && vsched.Ctr(rcResolving) == 0 && vsched.Ctr(rcCalls) > 0 {
+				fail("C10.wrong-error", "the resolver call has returned (the root context was cancelled from outside while it ran) but a Wait caller with a live context is still waiting: the call's outcome was dropped")
+			}
 			e.quiescentOracle([]int{0})
 			// the resolver now invalidates whatever it delivered (its context was cancelled by the owner, not
 			// through SetContext: the value is still stored and held): it must be dropped and released
@@ -483,6 +501,44 @@ func init() {
 		Doc:   "RefCount: as refcount-held with the unusual resolver outcomes for the first call: an error together with a partial value and a release function, the zero value together with a release function, released() invoked synchronously before the value is returned (the value is stale on arrival: released, resolved afresh)",
 		Quick: eng.Bounds{PB: 3, Delay: true}, Thorough: eng.Bounds{PB: 4, Delay: true},
 		Body: heldBody([]int{mErrorRel, mZeroRel, mEarlyInv}),
+	})
+	eng.Register(&eng.Scenario{
+		Name: "refcount-release-addref", Props: []string{"C09", "C08"}, MustFinish: true, ObsNames: stdObs,
+		Doc:   "RefCount (keep-unreferenced f/t, first call resolved or still running; choices): the last reference is released while another goroutine adds a new one (with or without callback) and keeps it: whichever order they take effect in, at quiescence the RefCount is referenced with a context, so a resolver call is in progress or its latest result is delivered",
+		Quick: eng.Bounds{PB: 3}, Thorough: eng.Bounds{PB: 5},
+		Body: func() {
+			keep := vsched.Choose(2) == 1
+			e := newRC2(bg, keep, firstThen([]int{mValue, mSlow, mError}[vsched.Choose(3)]))
+			r1 := e.rc.AddRef(refCb(0))
+			vsched.CtrSet(rcRefHeld+0, 1)
+			vsched.CtrAdd(rcHeld, 1)
+			if vsched.Choose(2) == 1 {
+				vsched.Settle()
+			}
+			gRel := &vsched.Gate{}
+			T("R", func() {
+				vsched.CtrSet(rcRefHeld+0, 0)
+				vsched.CtrAdd(rcHeld, -1)
+				r1.Release()
+			})
+			T("A", func() {
+				r2 := e.rc.AddRef(refCb(1))
+				vsched.CtrSet(rcRefHeld+1, 1)
+				vsched.CtrAdd(rcHeld, 1)
+				gRel.Wait() // (the goroutine that obtained the reference also releases it)
+				vsched.CtrSet(rcRefHeld+1, 0)
+				vsched.CtrAdd(rcHeld, -1)
+				r2.Release()
+			})
+			vsched.Settle()
+			e.quiescentOracle([]int{1})
+			gRel.Open()
+			vsched.Settle()
+			e.finalRelease()
+			e.setContext(nil)
+			vsched.Settle()
+			e.finalRelease()
+		},
 	})
 	eng.Register(&eng.Scenario{
 		Name: "refcount-drop-inflight", Props: []string{"C09", "C08"}, MustFinish: true, ObsNames: stdObs,
